@@ -45,6 +45,27 @@
 //!    them would show as a non-reproducible replay = engine error), `last_topo_order` (shows as the rank of the
 //!    next `add_node`; ranks are in the dump and checked for gap-freeness by C10), and the DFS scratch space of
 //!    `contains_transitive_edge` (its irrelevance is part of C11 and is probed by repeated queries, not assumed).
+//! 5. *One-step taint: hidden state left behind by operations that change nothing observable.* If the last operation
+//!    of a path left the key unchanged (a rejected `add_edge`, `add_edge` returning `Ok(false)`, a `remove_*` returning
+//!    `None` / `false`), the key additionally carries that operation (kind + handles by creation index); after an
+//!    operation that changes the key the taint is empty. So the state reached by `path ++ [no-op]` is NOT merged with
+//!    the state reached by `path`: it is a state of its own, expanded with the full alphabet, i.e. every operation is
+//!    also executed right after every observable no-op. (Without this, a breadth-first search never extends a path
+//!    through a no-op, and scratch data that e.g. an aborted cycle search leaves behind is never exercised.)
+//!    *Exactness.* Let an implementation's complete state after a path be a function of (observable state, last
+//!    operation if that operation was an observable no-op, else nothing). Then the key determines the complete state,
+//!    hence all futures, and merging on the key is exact; the old key (no taint) was exact only for implementations
+//!    whose complete state is a function of the observable state alone. For implementations outside this class
+//!    (hidden state that survives several operations) the taint is a strict refinement: the old key is a projection of
+//!    the new one, so two paths merged now were merged before, never the other way round, and every transition the
+//!    untainted search executed is still executed (the untainted states and their shortest paths are the same).
+//! 6. *Queries.* The C10 run issues no query that touches the scratch space of `contains_transitive_edge`, it runs
+//!    pure operation sequences. The C11 run issues, before EVERY operation (in replays too, so that every execution
+//!    of a path is the same sequence of calls), one `contains_transitive_edge(i, j)` for the first pair that the
+//!    model says is reachable - a query that returns early and leaves the scratch space as full as it gets - and
+//!    after the last operation the whole query battery in several orders. This covers query -> operation and
+//!    operation -> query interference for that fixed choice of query; a taint "last query issued" for every query
+//!    would multiply the states by the number of handle pairs and is not done.
 
 use std::collections::{BTreeMap, HashMap};
 use std::panic::{catch_unwind, AssertUnwindSafe};
@@ -306,10 +327,14 @@ struct Real {
   slots: Vec<Option<u32>>,
   /// Slots of removed nodes that no younger handle occupies, in the order in which they were freed.
   freed: Vec<u32>,
+  /// Slots of the first handles as learnt from an earlier execution of the same path (saves formatting the handles
+  /// again in every replay; which slot a handle gets is decided by the slotmap from the sequence of `add_node` /
+  /// `remove_node` calls alone, and the first replay of every state parses them for real).
+  known_slots: Option<Vec<Option<u32>>>,
 }
 
 impl Real {
-  fn new() -> Self { Real { dag: DAG::new(), handles: Vec::new(), handle_collision: false, slots: Vec::new(), freed: Vec::new() } }
+  fn new() -> Self { Real { dag: DAG::new(), handles: Vec::new(), handle_collision: false, slots: Vec::new(), freed: Vec::new(), known_slots: None } }
 
   fn idx(&self, n: &Node) -> u8 { self.handles.iter().position(|h| h == n).map(|p| p as u8).unwrap_or(UNKNOWN) }
 
@@ -356,7 +381,10 @@ impl Real {
         let idx = self.handles.len() as u8;
         let n = self.dag.add_node(idx);
         if self.handles.contains(&n) { self.handle_collision = true; }
-        let slot = Self::parse_slot(&n);
+        let slot = match self.known_slots.as_ref().and_then(|k| k.get(idx as usize)) {
+          Some(s) => *s,
+          None => Self::parse_slot(&n),
+        };
         if let Some(s) = slot { self.freed.retain(|f| *f != s); }
         self.slots.push(slot);
         self.handles.push(n);
@@ -522,7 +550,7 @@ fn model_determined_by_obs(prop: Prop, obs: &Obs, model: &Model) -> bool {
 }
 
 /// Canonical bytes of a (real, model) state pair; see the module documentation for why this is exact.
-fn encode_key(prop: Prop, obs: &Obs, model: &Model, slot_sig: &[u8]) -> Box<[u8]> {
+fn encode_key(prop: Prop, obs: &Obs, model: &Model, slot_sig: &[u8], taint: Option<Op>) -> Box<[u8]> {
   let k = obs.k();
   let mut b: Vec<u8> = Vec::with_capacity(24 + 8 * k);
   let mut ren = Renumber { seen: Vec::new() };
@@ -564,16 +592,49 @@ fn encode_key(prop: Prop, obs: &Obs, model: &Model, slot_sig: &[u8]) -> Box<[u8]
       }
     }
   }
-  // Slot assignment last, followed by its length, so that it can be stripped again (`strip_slot_signature`).
+  // Taint (3 bytes), then the slot assignment followed by its length, so that both can be located from the end.
+  b.extend_from_slice(&taint_bytes(taint));
   b.extend_from_slice(slot_sig);
   b.push(slot_sig.len() as u8);
   b.into_boxed_slice()
 }
 
-/// The key without the slot assignment: the observable state (and model part) proper.
-fn strip_slot_signature(key: &[u8]) -> &[u8] {
+/// The operation that left the state unchanged, as key bytes (`None` = 0,0,0).
+fn taint_bytes(taint: Option<Op>) -> [u8; 3] {
+  match taint {
+    None | Some(Op::AddNode) => [0, 0, 0],
+    Some(Op::AddEdge(i, j)) => [1, i, j],
+    Some(Op::RemoveEdge(i, j)) => [2, i, j],
+    Some(Op::RemoveOut(i)) => [3, i, 0],
+    Some(Op::RemoveNode(i)) => [4, i, 0],
+  }
+}
+
+fn taint_offset(key: &[u8]) -> usize {
   let n = *key.last().unwrap() as usize;
-  &key[..key.len() - 1 - n]
+  key.len() - 1 - n - 3
+}
+
+/// The same key with another taint.
+fn with_taint(key: &[u8], taint: Option<Op>) -> Box<[u8]> {
+  let mut k = key.to_vec();
+  let o = taint_offset(key);
+  k[o..o + 3].copy_from_slice(&taint_bytes(taint));
+  k.into_boxed_slice()
+}
+
+/// The key without taint and slot assignment: the observable state (and model part) proper.
+fn strip_slot_signature(key: &[u8]) -> &[u8] { &key[..taint_offset(key)] }
+
+/// The query issued before every operation of a C11 run (module documentation, point 6): the first pair the model
+/// says is transitively connected.
+fn dirty_query(model: &Model) -> Option<(u8, u8)> {
+  for i in 0..model.k() as u8 {
+    if !model.is_alive(i) { continue; }
+    let r = model.reachable(i);
+    if let Some(j) = (0..model.k()).find(|j| r[*j] && model.alive[*j]) { return Some((i, j as u8)); }
+  }
+  None
 }
 
 /// Closed-form count of the observable states with at most `a` handles, for cross-checking the state count of a
@@ -660,6 +721,10 @@ pub struct Stats {
   pub queries: u64,
   pub replayed_ops: u64,
   pub slot_reuse: u64,
+  /// Transitions executed right after an operation that changed nothing observable (from a tainted state).
+  pub after_noop: u64,
+  /// Number of times the complete C11 query battery was run.
+  pub batteries: u64,
   pub outcomes: BTreeMap<&'static str, u64>,
 }
 
@@ -669,6 +734,8 @@ impl Stats {
     self.queries += o.queries;
     self.replayed_ops += o.replayed_ops;
     self.slot_reuse += o.slot_reuse;
+    self.after_noop += o.after_noop;
+    self.batteries += o.batteries;
     for (k, v) in &o.outcomes { *self.outcomes.entry(k).or_insert(0) += v; }
   }
 }
@@ -1003,10 +1070,27 @@ fn c11_queries(real: &Real, model: &Model, obs: &Obs, q: &mut u64) -> Result<(),
 /// Executes one operation on the real DAG and on (a copy of) the model and evaluates the oracles of `prop`.
 /// Returns the observation and model after the operation, or the first failed oracle.
 fn step(prop: Prop, real: &mut Real, model: &Model, obs_pre: &Obs, op: Op, marker: u16, stats: &mut Stats) -> Result<(Obs, Model), Fail> {
+  let (obs, m2) = step_core(prop, real, model, obs_pre, op, marker, stats)?;
+  query_battery(prop, real, &m2, &obs, op, stats)?;
+  Ok((obs, m2))
+}
+
+/// The operation itself with all oracles that need no further query: results, state comparison, invariants.
+fn step_core(prop: Prop, real: &mut Real, model: &Model, obs_pre: &Obs, op: Op, marker: u16, stats: &mut Stats) -> Result<(Obs, Model), Fail> {
+  let pre_query = if prop == Prop::C11 { dirty_query(model) } else { None };
   let pid = prop.id();
   let mut m2 = model.clone();
   let m_res = m2.apply(op, marker);
   stats.transitions += 1;
+
+  if let Some((i, j)) = pre_query {
+    stats.queries += 1;
+    match catch_unwind(AssertUnwindSafe(|| real.dag.contains_transitive_edge(real.handles[i as usize], real.handles[j as usize]))) {
+      Ok(true) => {}
+      Ok(false) => return Err(fail("C11/contains_transitive_edge", format!("contains_transitive_edge({},{}) = false when asked before {}", i, j, op.render()), json!(true), json!(false))),
+      Err(p) => return Err(fail("C11/panic", format!("contains_transitive_edge({},{}) before {} panicked: {}", i, j, op.render(), panic_text(p)), json!(true), json!("panic"))),
+    }
+  }
 
   let r_res = match catch_unwind(AssertUnwindSafe(|| real.apply(op, marker))) {
     Ok(r) => r,
@@ -1074,19 +1158,25 @@ fn step(prop: Prop, real: &mut Real, model: &Model, obs_pre: &Obs, op: Op, marke
           return Err(fail("C11/reinsertion-changed-state", format!("{} re-inserted an existing edge but changed the observable state: {}", op.render(), d), obs_pre.to_json(), obs.to_json()));
         }
       }
-      let mut q = 0u64;
-      let res = catch_unwind(AssertUnwindSafe(|| c11_queries(real, &m2, &obs, &mut q)));
-      stats.queries += q;
-      match res {
-        Ok(r) => r.map_err(|mut f| {
-          f.what = format!("after {}: {}", op.render(), f.what);
-          f
-        })?,
-        Err(p) => return Err(fail("C11/panic", format!("a query after {} panicked: {}", op.render(), panic_text(p)), json!("no panic"), json!("panic"))),
-      }
     }
   }
   Ok((obs, m2))
+}
+
+/// C11: the battery of queries on the state after `op` (nothing for C10).
+fn query_battery(prop: Prop, real: &Real, m2: &Model, obs: &Obs, op: Op, stats: &mut Stats) -> Result<(), Fail> {
+  if prop != Prop::C11 { return Ok(()); }
+  let mut q = 0u64;
+  let res = catch_unwind(AssertUnwindSafe(|| c11_queries(real, m2, obs, &mut q)));
+  stats.queries += q;
+  stats.batteries += 1;
+  match res {
+    Ok(r) => r.map_err(|mut f| {
+      f.what = format!("after {}: {}", op.render(), f.what);
+      f
+    }),
+    Err(p) => Err(fail("C11/panic", format!("a query after {} panicked: {}", op.render(), panic_text(p)), json!("no panic"), json!("panic"))),
+  }
 }
 
 // ---------------------------------------------------------------------------------------------------------------
@@ -1099,6 +1189,11 @@ pub struct Bounds {
   pub state_cap: usize,
   pub wall_cap_s: f64,
   pub threads: usize,
+  /// C11: run the query battery after EVERY transition (true), or only after transitions into a state that was not
+  /// yet known when the current level started (false). The battery's answers are part of a state's future, so the
+  /// second form leans on the same argument as merging states at all; the state comparison against the model and
+  /// all other oracles run after every transition in both forms.
+  pub battery_after_every_transition: bool,
 }
 
 #[derive(Debug)]
@@ -1120,14 +1215,33 @@ pub struct SearchOut {
   pub wall_s: f64,
   /// Distinct states when the (hidden) slot assignment is ignored; computed at a fixed point only.
   pub states_modulo_slots: Option<usize>,
+  /// States whose last operation changed nothing observable (observable state + that operation as taint).
+  pub tainted_states: usize,
   /// Is the slot assignment known (the `Debug` form of `Node` understood) and therefore part of the key?
   pub slot_signature_in_key: bool,
 }
 
+/// FNV-1a for the state table (keys are compared byte by byte as ever; only the bucket choice is cheaper than SipHash).
+#[derive(Default, Clone, Copy)]
+struct Fnv(u64);
+
+impl std::hash::Hasher for Fnv {
+  fn finish(&self) -> u64 { self.0 ^ (self.0 >> 29) }
+  fn write(&mut self, bytes: &[u8]) {
+    let mut h = if self.0 == 0 { 0xcbf29ce484222325 } else { self.0 };
+    for b in bytes { h = (h ^ *b as u64).wrapping_mul(0x100000001b3); }
+    self.0 = h;
+  }
+}
+
+type FnvBuild = std::hash::BuildHasherDefault<Fnv>;
+
 struct Store {
-  keys: HashMap<Box<[u8]>, u32>,
+  keys: HashMap<Box<[u8]>, u32, FnvBuild>,
   parent: Vec<u32>,
   via: Vec<Op>,
+  /// Did `via` leave the key of `parent` unchanged (then this state is `parent` tainted with `via`)?
+  tainted: Vec<bool>,
 }
 
 impl Store {
@@ -1143,50 +1257,102 @@ impl Store {
 }
 
 struct ChunkOut {
-  succ: Vec<(u32, Op, Box<[u8]>)>,
+  succ: Vec<(u32, Op, Box<[u8]>, bool)>,
   fails: Vec<(u32, Op, Fail)>,
   n_fails: u64,
   stats: Stats,
 }
 
 /// Replays `path` on a fresh real DAG. A panic here is an engine error: the path was executed without panic before.
-fn replay_real(path: &[Op], stats: &mut Stats) -> Real {
+fn replay_real(path: &[Op], pre_queries: &[Option<(u8, u8)>], known_slots: Option<&Vec<Option<u32>>>, stats: &mut Stats) -> Real {
   let mut real = Real::new();
+  real.known_slots = known_slots.cloned();
   let r = catch_unwind(AssertUnwindSafe(|| {
-    for (p, op) in path.iter().enumerate() { real.apply(*op, marker_for(p)); }
+    for (p, op) in path.iter().enumerate() {
+      if let Some((i, j)) = pre_queries[p] { real.dag.contains_transitive_edge(real.handles[i as usize], real.handles[j as usize]); }
+      real.apply(*op, marker_for(p));
+    }
   }));
   if r.is_err() { engine_error(&format!("replaying the recorded path {:?} panicked", render_path(path))); }
   stats.replayed_ops += path.len() as u64;
   real
 }
 
-/// Expands one state: every operation of its alphabet, each on a freshly replayed DAG.
-fn expand(prop: Prop, a: usize, store: &Store, id: u32, out: &mut ChunkOut) {
+/// Expands one state: every operation of its alphabet, each on a freshly replayed DAG. The first replay is observed
+/// and must reproduce the recorded key (engine error otherwise); the later replays of the same path are not observed
+/// again before the operation, but every failed oracle is confirmed by `confirm_failure` before it is reported.
+fn expand(prop: Prop, bounds: &Bounds, store: &Store, id: u32, out: &mut ChunkOut) {
   const KEEP_PER_CHUNK: usize = 6;
   let path = store.path_of(id);
   let mut model = Model::new();
-  for (p, op) in path.iter().enumerate() { model.apply(*op, marker_for(p)); }
+  let mut pre_queries = Vec::with_capacity(path.len());
+  for (p, op) in path.iter().enumerate() {
+    pre_queries.push(if prop == Prop::C11 { dirty_query(&model) } else { None });
+    model.apply(*op, marker_for(p));
+  }
   let marker = marker_for(path.len());
-  for op in alphabet(model.k(), a) {
-    let mut real = replay_real(&path, &mut out.stats);
-    let obs_pre = match catch_unwind(AssertUnwindSafe(|| observe(&real))) {
-      Ok(o) => o,
-      Err(_) => engine_error(&format!("observing the replayed path {:?} panicked", render_path(&path))),
-    };
-    let key_pre = encode_key(prop, &obs_pre, &model, &real.slot_signature());
-    if store.keys.get(&key_pre) != Some(&id) {
-      engine_error(&format!("replaying {:?} does not reproduce the recorded state {}", render_path(&path), id));
-    }
-    match step(prop, &mut real, &model, &obs_pre, op, marker, &mut out.stats) {
-      Ok((obs, m2)) => {
-        let key = encode_key(prop, &obs, &m2, &real.slot_signature());
-        if !store.keys.contains_key(&key) { out.succ.push((id, op, key)); }
+  let taint_pre = if store.tainted[id as usize] { Some(store.via[id as usize]) } else { None };
+  let mut pre: Option<(Obs, Box<[u8]>)> = None; // observation and untainted key of this state
+  let mut slots: Option<Vec<Option<u32>>> = None; // slots of this state's handles, parsed in the first replay
+  for op in alphabet(model.k(), bounds.nodes_ever_created) {
+    let mut real = replay_real(&path, &pre_queries, slots.as_ref(), &mut out.stats);
+    if slots.is_none() { slots = Some(real.slots.clone()); }
+    if pre.is_none() {
+      let obs_pre = match catch_unwind(AssertUnwindSafe(|| observe(&real))) {
+        Ok(o) => o,
+        Err(_) => engine_error(&format!("observing the replayed path {:?} panicked", render_path(&path))),
+      };
+      let key_pre = encode_key(prop, &obs_pre, &model, &real.slot_signature(), taint_pre);
+      if store.keys.get(&key_pre) != Some(&id) {
+        engine_error(&format!("replaying {:?} does not reproduce the recorded state {}", render_path(&path), id));
       }
-      Err(f) => {
+      pre = Some((obs_pre, with_taint(&key_pre, None)));
+    }
+    let (obs_pre, key_pre_clean) = pre.as_ref().unwrap();
+    if taint_pre.is_some() { out.stats.after_noop += 1; }
+    let outcome = step_core(prop, &mut real, &model, obs_pre, op, marker, &mut out.stats).and_then(|(obs, m2)| {
+      // Nothing observable changed: the successor is this state (without its own taint) tainted with `op`.
+      // (Shortcut: identical observation and model give identical bytes, no need to encode them again.)
+      let (noop, key) = if op != Op::AddNode && obs == *obs_pre && m2 == model {
+        (true, with_taint(key_pre_clean, Some(op)))
+      } else {
+        let clean = encode_key(prop, &obs, &m2, &real.slot_signature(), None);
+        let noop = clean[..] == key_pre_clean[..];
+        (noop, if noop { with_taint(&clean, Some(op)) } else { clean })
+      };
+      let known = store.keys.contains_key(&key);
+      if bounds.battery_after_every_transition || !known { query_battery(prop, &real, &m2, &obs, op, &mut out.stats)?; }
+      Ok((key, noop, known))
+    });
+    match outcome {
+      Ok((key, noop, known)) => {
+        if !known { out.succ.push((id, op, key, noop)); }
+      }
+      Err(_) => {
+        let f = confirm_failure(prop, store, id, &path, &pre_queries, &model, taint_pre, op);
         out.n_fails += 1;
         if out.fails.len() < KEEP_PER_CHUNK { out.fails.push((id, op, f)); }
       }
     }
+  }
+}
+
+/// Re-executes a failed transition from scratch: fresh replay, the pre-state observed and required to be the recorded
+/// one, all oracles of the property. Only a failure that shows again is reported; anything else is an engine error
+/// (non-reproducible execution), never a verdict.
+fn confirm_failure(prop: Prop, store: &Store, id: u32, path: &[Op], pre_queries: &[Option<(u8, u8)>], model: &Model, taint_pre: Option<Op>, op: Op) -> Fail {
+  let mut scratch = Stats::default();
+  let mut real = replay_real(path, pre_queries, None, &mut scratch);
+  let obs_pre = match catch_unwind(AssertUnwindSafe(|| observe(&real))) {
+    Ok(o) => o,
+    Err(_) => engine_error(&format!("observing the replayed path {:?} panicked", render_path(path))),
+  };
+  if store.keys.get(&encode_key(prop, &obs_pre, model, &real.slot_signature(), taint_pre)) != Some(&id) {
+    engine_error(&format!("replaying {:?} does not reproduce the recorded state {}", render_path(path), id));
+  }
+  match step(prop, &mut real, model, &obs_pre, op, marker_for(path.len()), &mut scratch) {
+    Err(f) => f,
+    Ok(_) => engine_error(&format!("an oracle failed after {:?} followed by {}, but not when the same sequence was executed again", render_path(path), op.render())),
   }
 }
 
@@ -1203,12 +1369,12 @@ pub fn search(prop: Prop, bounds: &Bounds) -> SearchOut {
   const EXTRA_LEVELS_AFTER_VIOLATION: usize = 2;
   let mut first_violation_depth: Option<usize> = None;
   let mut readd_sample: Option<u32> = None; // latest state reached by an add_node that follows a remove_node
+  let mut tainted_sample: Option<u32> = None; // latest state whose last operation changed nothing observable
   let start = Instant::now();
-  let a = bounds.nodes_ever_created;
-  let mut store = Store { keys: HashMap::new(), parent: vec![0], via: vec![Op::AddNode] };
+  let mut store = Store { keys: HashMap::default(), parent: vec![0], via: vec![Op::AddNode], tainted: vec![false] };
   {
     let real = Real::new();
-    let key = encode_key(prop, &observe(&real), &Model::new(), &real.slot_signature());
+    let key = encode_key(prop, &observe(&real), &Model::new(), &real.slot_signature(), None);
     store.keys.insert(key, 0);
   }
   let mut stats = Stats::default();
@@ -1244,7 +1410,7 @@ pub fn search(prop: Prop, bounds: &Bounds) -> SearchOut {
                 let c = cursor_ref.fetch_add(1, AtomicOrdering::Relaxed);
                 if c >= chunks_ref.len() { break; }
                 let mut out = ChunkOut { succ: Vec::new(), fails: Vec::new(), n_fails: 0, stats: Stats::default() };
-                for id in chunks_ref[c] { expand(prop, a, store_ref, *id, &mut out); }
+                for id in chunks_ref[c] { expand(prop, bounds, store_ref, *id, &mut out); }
                 mine.push((c, out));
               }
               mine
@@ -1271,13 +1437,15 @@ pub fn search(prop: Prop, bounds: &Bounds) -> SearchOut {
             fails.push((path, f));
           }
         }
-        for (parent, op, key) in out.succ {
+        for (parent, op, key, noop) in out.succ {
           if store.keys.contains_key(&key) { continue; }
           let id = store.parent.len() as u32;
           if op == Op::AddNode && store.path_of(parent).iter().any(|o| matches!(o, Op::RemoveNode(_))) { readd_sample = Some(id); }
           store.keys.insert(key, id);
           store.parent.push(parent);
           store.via.push(op);
+          store.tainted.push(noop);
+          if noop { tainted_sample = Some(id); }
           next.push(id);
         }
       }
@@ -1307,6 +1475,7 @@ pub fn search(prop: Prop, bounds: &Bounds) -> SearchOut {
   // A few of the explored paths, at fixed positions of the (deterministic) discovery order.
   let mut sample_ids: Vec<u32> = vec![states as u32 - 1, (states / 2) as u32, (states / 4) as u32, (3 * (states / 4)) as u32, (states / 10) as u32];
   sample_ids.extend(readd_sample);
+  sample_ids.extend(tainted_sample);
   sample_ids.dedup();
   let samples = sample_ids.into_iter().map(|id| render_path(&store.path_of(id))).filter(|p| !p.is_empty()).collect();
   let states_modulo_slots = if fixed_point {
@@ -1318,6 +1487,7 @@ pub fn search(prop: Prop, bounds: &Bounds) -> SearchOut {
   SearchOut {
     bounds: bounds.clone(), states, stats, level_sizes, fixed_point, cap_hit, depth_completely_covered, max_depth,
     fails, violating_transitions, samples, wall_s: start.elapsed().as_secs_f64(), states_modulo_slots, slot_signature_in_key,
+    tainted_states: store.tainted.iter().filter(|t| **t).count(),
   }
 }
 
@@ -1330,7 +1500,7 @@ alphabet per state: add_node (while fewer than `nodes_ever_created` handles exis
 add_edge(i,j,fresh marker), remove_edge(i,j), remove_outgoing_edges_of_node(i), remove_node(i); every transition replays the state's shortest \
 operation path on a fresh DAG, executes the operation, and evaluates the property's oracles; states = complete observable API state \
 (alive, rank, ordered outgoing/incoming adjacency with data, len, stray edge data) by creation index with edge markers renumbered by first \
-appearance, plus the oracle-relevant model state where the dump does not determine it, plus the slotmap slot assignment (slot per handle, freed slots in order) so that dead handles whose slot was reused are exercised as such; merged on exact equality of these bytes; level-synchronous over 16 threads with deterministic merge, to fixed point or cap; after the first level with a violation the search runs two more levels and stops";
+appearance, plus the oracle-relevant model state where the dump does not determine it, plus the slotmap slot assignment (slot per handle, freed slots in order) so that dead handles whose slot was reused are exercised as such, plus a one-step taint: if the last operation changed nothing observable (rejected or repeated add_edge, remove_* returning None / false) the state also carries that operation, so every operation is also executed right after every observable no-op and hidden scratch state left behind by no-ops is exercised; merged on exact equality of these bytes; level-synchronous over 16 threads with deterministic merge, to fixed point or cap; after the first level with a violation the search runs two more levels and stops";
 
 fn make_violation(prop: Prop, path: &[Op], f: &Fail, a: Option<usize>) -> Violation {
   Violation {
@@ -1360,7 +1530,9 @@ fn phase_json(o: &SearchOut) -> Value {
   json!({
     "nodes_ever_created": o.bounds.nodes_ever_created,
     "states": o.states,
-    "states_modulo_slot_assignment": o.states_modulo_slots,
+    "states_of_which_tainted_by_a_preceding_noop": o.tainted_states,
+    "transitions_executed_right_after_a_noop": o.stats.after_noop,
+    "states_modulo_slot_assignment_and_taint": o.states_modulo_slots,
     "closed_form_states_lists_from_one_insertion_sequence": closed_form_states(o.bounds.nodes_ever_created, false),
     "closed_form_states_lists_ordered_independently": closed_form_states(o.bounds.nodes_ever_created, true),
     "states_match_closed_form": match o.states_modulo_slots.map(|n| n as u64) {
@@ -1392,12 +1564,20 @@ pub fn run(args: &Args) -> i32 {
 
   let mut rep = Report::new(args);
   let threads = std::thread::available_parallelism().map(|n| n.get()).unwrap_or(16);
-  let (state_cap, wall_cap_s) = match args.tier { Tier::Quick => (1_000_000usize, 120.0f64), Tier::Thorough => (3_000_000usize, 900.0f64) };
+  let (state_cap, wall_cap_s) = match args.tier { Tier::Quick => (1_000_000usize, 120.0f64), Tier::Thorough => (3_000_000usize, 600.0f64) };
   // Quick: A = 4 to fixed point. Thorough: the same, then A = 5 under the state / wall cap.
-  let plan: Vec<usize> = match args.tier { Tier::Quick => vec![4], Tier::Thorough => vec![4, 5] };
+  let mut plan: Vec<usize> = match args.tier { Tier::Quick => vec![4], Tier::Thorough => vec![4, 5] };
+  // Experiment overrides (recorded in the evidence through `bounds` / `phases`): nodes=N cap=N wall=S
+  let (mut state_cap, mut wall_cap_s) = (state_cap, wall_cap_s);
+  for x in &args.extra {
+    if let Some(v) = x.strip_prefix("nodes=").and_then(|v| v.parse().ok()) { plan = vec![v]; }
+    else if let Some(v) = x.strip_prefix("cap=").and_then(|v| v.parse().ok()) { state_cap = v; }
+    else if let Some(v) = x.strip_prefix("wall=").and_then(|v| v.parse().ok()) { wall_cap_s = v; }
+    else { eprintln!("unknown argument {}", x); return 2; }
+  }
   let mut outs: Vec<SearchOut> = Vec::new();
   for a in plan {
-    let b = Bounds { nodes_ever_created: a, state_cap, wall_cap_s: (wall_cap_s - rep.elapsed()).max(1.0), threads };
+    let b = Bounds { nodes_ever_created: a, state_cap, wall_cap_s: (wall_cap_s - rep.elapsed()).max(1.0), threads, battery_after_every_transition: args.tier == Tier::Thorough };
     outs.push(quiet_panics(|| search(prop, &b)));
   }
 
@@ -1423,6 +1603,14 @@ pub fn run(args: &Args) -> i32 {
   let outcomes: serde_json::Map<String, Value> = total.outcomes.iter().map(|(k, v)| (k.to_string(), json!(v))).collect();
   rep.set("distinct_outcomes", json!({"count": outcomes.len(), "observed (operation -> result: transitions)": outcomes}));
   rep.set("slot_reuse_transitions", json!(total.slot_reuse));
+  rep.set("taint", json!({
+    "rule": "state identity = observable state + (last operation, if it changed nothing observable); exact for implementations whose hidden state is a function of (observable state, last no-op), a strict refinement of the untainted search otherwise",
+    "tainted_states": outs.iter().map(|o| o.tainted_states).sum::<usize>(),
+    "transitions_executed_right_after_a_noop": total.after_noop,
+    "c11_query_before_every_operation": "contains_transitive_edge for the first reachable pair of the model (C11 runs only, also in replays)",
+    "c11_query_battery": if args.tier == Tier::Thorough { "after every transition" } else { "after every transition into a state that was not known when the level started; all other oracles after every transition" },
+    "c11_query_batteries_run": total.batteries,
+  }));
   rep.set("samples", json!(outs.iter().flat_map(|o| o.samples.clone()).collect::<Vec<_>>()));
   rep.set("violating_transitions", json!(outs.iter().map(|o| o.violating_transitions).sum::<u64>()));
   rep.set("rule", json!(RULE));
@@ -1465,7 +1653,7 @@ fn run_ops_once(prop: Prop, ops: &[Op], stats: &mut Stats) -> (Vec<String>, usiz
   let mut log = Vec::new();
   let mut keys = std::collections::BTreeSet::new();
   let mut obs = observe(&real);
-  keys.insert(encode_key(prop, &obs, &model, &real.slot_signature()));
+  keys.insert(encode_key(prop, &obs, &model, &real.slot_signature(), None));
   for (p, op) in ops.iter().enumerate() {
     if let Some(m) = op.max_handle() {
       if m as usize >= real.handles.len() { engine_error(&format!("replay operation {} ({}) names a handle that was never created", p, op.render())); }
@@ -1473,7 +1661,7 @@ fn run_ops_once(prop: Prop, ops: &[Op], stats: &mut Stats) -> (Vec<String>, usiz
     match step(prop, &mut real, &model, &obs, *op, marker_for(p), stats) {
       Ok((o, m)) => {
         log.push(format!("{} => {}", op.render(), o.to_json()));
-        keys.insert(encode_key(prop, &o, &m, &real.slot_signature()));
+        keys.insert(encode_key(prop, &o, &m, &real.slot_signature(), None));
         obs = o;
         model = m;
       }
@@ -1545,7 +1733,7 @@ fn run_replay(args: &Args, prop: Prop, file: &std::path::Path) -> i32 {
 mod tests {
   use super::*;
 
-  fn bounds(a: usize) -> Bounds { Bounds { nodes_ever_created: a, state_cap: 1_000_000, wall_cap_s: 600.0, threads: 4 } }
+  fn bounds(a: usize) -> Bounds { Bounds { nodes_ever_created: a, state_cap: 1_000_000, wall_cap_s: 600.0, threads: 4, battery_after_every_transition: true } }
 
   fn run_path(ops: &[Op]) -> (Real, Model) {
     let mut real = Real::new();
@@ -1583,6 +1771,9 @@ mod tests {
     assert_eq!(closed_form_states(5, true), Some(42563495));
     assert_eq!(a.states_modulo_slots, Some(104));
     assert!(a.slot_signature_in_key && a.states > 104);
+    // Operations are also executed right after operations that changed nothing observable.
+    assert!(a.tainted_states > 104 && a.stats.after_noop > a.tainted_states as u64);
+    assert!(a.samples.iter().any(|p| p.len() >= 2));
     let b = search(Prop::C10, &Bounds { threads: 1, ..bounds(3) });
     assert_eq!((a.states, a.stats.transitions, a.stats.queries, &a.level_sizes), (b.states, b.stats.transitions, b.stats.queries, &b.level_sizes));
   }
@@ -1660,9 +1851,16 @@ mod tests {
     let (r1, m1) = run_path(&[Op::AddNode, Op::AddNode, Op::AddEdge(0, 1)]);
     let (r2, m2) = run_path(&[Op::AddNode, Op::AddNode, Op::AddEdge(0, 1), Op::RemoveEdge(0, 1), Op::AddEdge(0, 1)]);
     assert_ne!(observe(&r1), observe(&r2)); // different markers ...
-    assert_eq!(encode_key(Prop::C11, &observe(&r1), &m1, &r1.slot_signature()), encode_key(Prop::C11, &observe(&r2), &m2, &r2.slot_signature())); // ... same state
+    assert_eq!(encode_key(Prop::C11, &observe(&r1), &m1, &r1.slot_signature(), None), encode_key(Prop::C11, &observe(&r2), &m2, &r2.slot_signature(), None)); // ... same state
     let (r3, m3) = run_path(&[Op::AddNode, Op::AddNode, Op::AddEdge(1, 0)]);
-    assert_ne!(encode_key(Prop::C11, &observe(&r1), &m1, &[]), encode_key(Prop::C11, &observe(&r3), &m3, &[]));
+    assert_ne!(encode_key(Prop::C11, &observe(&r1), &m1, &[], None), encode_key(Prop::C11, &observe(&r3), &m3, &[], None));
+    // A taint distinguishes, and can be set and stripped again.
+    let k1 = encode_key(Prop::C10, &observe(&r1), &m1, &r1.slot_signature(), None);
+    let kt = encode_key(Prop::C10, &observe(&r1), &m1, &r1.slot_signature(), Some(Op::AddEdge(1, 0)));
+    assert_ne!(k1, kt);
+    assert_eq!(with_taint(&k1, Some(Op::AddEdge(1, 0))), kt);
+    assert_eq!(with_taint(&kt, None), k1);
+    assert_eq!(strip_slot_signature(&k1), strip_slot_signature(&kt));
     // Dead handles stay dead when their slot is reused.
     let (r4, _) = run_path(&[Op::AddNode, Op::RemoveNode(0), Op::AddNode]);
     assert_eq!(observe(&r4).alive, vec![false, true]);
